@@ -687,3 +687,122 @@ Proof.
     + left. exists b. auto.
 Qed.
 End ParseProofs.
+
+(* ------------------------------------------------------------------ *)
+(* the block stored for an edition is the text between its start flag and
+   its end flag (used by C10: scanner's blocks keyed by batch) *)
+Section BlockProofs.
+Context {L : Type}.
+
+Definition not_comment (l : str) : Prop :=
+  startswith kw_slashes (lstrip l) = false /\ startswith kw_bangs (lstrip l) = false.
+
+(* no start of a photon/electron balance or homogenised-material dump: such
+   lines (and what follows them) are diverted from the block *)
+Definition not_diverting (l : str) : Prop :=
+  contains kw_hash64 l = false /\ contains kw_dumphomog l = false.
+
+Definition plain_line (l : str) : Prop :=
+  not_comment l /\ not_diverting l /\ is_end_flag l = None.
+
+Lemma build_result_plain (b : bscan L) t l b' :
+  b_inph b = false -> h_in (b_hm b) = false -> not_diverting l ->
+  build_result b t l = OkS b' ->
+  b_result b' = t :: b_result b /\ b_inph b' = false /\ h_in (b_hm b') = false.
+Proof.
+  intros Hph Hhm [Hh Hd] H. unfold build_result in H.
+  destruct (br_patterns b (split_ws l) l) as [b1|] eqn:E1; [|discriminate].
+  destruct (br_greater b1 (split_ws l) l) as [b2|] eqn:E2; [|discriminate].
+  assert (P1 : b_result b1 = b_result b /\ b_inph b1 = false /\ h_in (b_hm b1) = false).
+  { unfold br_patterns in E1. rewrite Hh, Hd in E1. cbn [andb] in E1.
+    destruct (contains kw_edition l).
+    - destruct (int_last (split_ws l)); inversion E1; subst. cbn. auto.
+    - inversion E1; subst. auto. }
+  destruct P1 as (R1 & I1 & M1).
+  assert (P2 : b_result b2 = b_result b /\ b_inph b2 = false /\ h_in (b_hm b2) = false).
+  { unfold br_greater in E2. destruct (b_para b1 && contains kw_nbused l).
+    - destruct (int_at (split_ws l) 4); inversion E2; subst.
+      destruct (b_greater b1 <? a)%Z; cbn; auto.
+    - inversion E2; subst. auto. }
+  destruct P2 as (R2 & I2 & M2).
+  unfold br_store in H. rewrite I2, M2 in H. inversion H; subst. cbn. rewrite R2. auto.
+Qed.
+
+Lemma run_body (s : st L) (b : bscan L) (body : list (L * str)) s' :
+  s_bs s = Some b -> b_inph b = false -> h_in (b_hm b) = false ->
+  (forall t l, In (t, l) body -> plain_line l) ->
+  run s body = OkS s' ->
+  exists b', s_bs s' = Some b' /\ b_result b' = rev (map fst body) ++ b_result b /\
+             b_inph b' = false /\ h_in (b_hm b') = false /\
+             s_stores s' = s_stores s /\ s_coll s' = s_coll s.
+Proof.
+  revert s b; induction body as [|[t l] body IH]; intros s b Hbs Hph Hhm Hpl H.
+  - cbn in H. inversion H; subst. exists b. cbn. repeat split; auto.
+  - cbn [run] in H. destruct (step s t l) as [s1|] eqn:E; [|discriminate].
+    destruct (Hpl t l (or_introl eq_refl)) as ((Hc1 & Hc2) & Hnd & Hnf).
+    unfold step in E. rewrite Hc1, Hc2 in E.
+    pose proof (set_flags_same s l) as (F1 & F2 & F3 & F4 & _).
+    assert (Hbs1 : s_bs (set_flags s l) = Some b).
+    { unfold set_flags. destruct (contains kw_WARNING l); [exact Hbs|].
+      destruct (contains kw_ERROR l); [destruct (contains kw_FATAL l); exact Hbs|].
+      destruct (contains kw_PARTIAL l); exact Hbs. }
+    rewrite Hbs1, Hnf in E.
+    destruct (build_result b t l) as [b1|] eqn:Eb; [|discriminate]. inversion E; subst s1. clear E.
+    destruct (build_result_plain b t l b1 Hph Hhm Hnd Eb) as (R & I & M).
+    destruct (IH (set_bs (set_flags s l) (Some b1)) b1 eq_refl I M
+                 (fun t' l' H' => Hpl t' l' (or_intror H')) H)
+      as (b' & B1 & B2 & B3 & B4 & B5 & B6).
+    exists b'. repeat split; auto.
+    + rewrite B2, R. cbn [map fst rev]. rewrite <- app_assoc. reflexivity.
+    + rewrite B5. cbn. exact F1.
+    + rewrite B6. cbn. exact F3.
+Qed.
+
+Theorem scan_blocks_keyed_by_batch (s0 : st L) t0 l0 body te le f s' :
+  s_bs s0 = None -> s_fatal (set_flags s0 l0) = false -> s_init s0 <> None ->
+  not_comment l0 -> contains kw_RESULTS l0 = true ->
+  (forall t l, In (t, l) body -> plain_line l) ->
+  not_comment le -> not_diverting le -> is_end_flag le = Some f ->
+  run s0 ((t0, l0) :: body ++ [(te, le)]) = OkS s' ->
+  exists bn, s_stores s' = (bn, t0 :: map fst body ++ [te]) :: s_stores s0 /\
+             od_get Z.eqb (s_coll s') bn = Some (t0 :: map fst body ++ [te]).
+Proof.
+  intros Hbs Hfat Hinit [Hc1 Hc2] Hres Hpl [Hd1 Hd2] Hnd Hf H.
+  cbn [run] in H. destruct (step s0 t0 l0) as [s1|] eqn:E0; [|discriminate].
+  unfold step in E0. rewrite Hc1, Hc2 in E0.
+  pose proof (set_flags_same s0 l0) as (F1 & F2 & F3 & F4 & _).
+  assert (Hbs1 : s_bs (set_flags s0 l0) = None).
+  { unfold set_flags. destruct (contains kw_WARNING l0); [exact Hbs|].
+    destruct (contains kw_ERROR l0); [destruct (contains kw_FATAL l0); exact Hbs|].
+    destruct (contains kw_PARTIAL l0); exact Hbs. }
+  assert (Hinit1 : s_init (set_flags s0 l0) = s_init s0).
+  { unfold set_flags. destruct (contains kw_WARNING l0); [reflexivity|].
+    destruct (contains kw_ERROR l0); [destruct (contains kw_FATAL l0); reflexivity|].
+    destruct (contains kw_PARTIAL l0); reflexivity. }
+  rewrite Hbs1, Hfat, Hinit1 in E0. destruct (s_init s0) as [z|]; [|contradiction].
+  rewrite Hres in E0. inversion E0; subst s1. clear E0.
+  rewrite run_app in H.
+  set (s1 := set_bs (set_flags s0 l0) (Some (new_bscan (s_cur (set_flags s0 l0)) (s_para (set_flags s0 l0)) t0))) in *.
+  destruct (run s1 body) as [s2|] eqn:E1; [|discriminate].
+  destruct (run_body s1 _ body s2 eq_refl eq_refl eq_refl Hpl E1) as (b2 & B1 & B2 & B3 & B4 & B5 & B6).
+  cbn [run] in H. destruct (step s2 te le) as [s3|] eqn:E2; [|discriminate]. inversion H; subst s3. clear H.
+  unfold step in E2. rewrite Hd1, Hd2 in E2.
+  assert (Hbs2 : s_bs (set_flags s2 le) = Some b2).
+  { unfold set_flags. destruct (contains kw_WARNING le); [exact B1|].
+    destruct (contains kw_ERROR le); [destruct (contains kw_FATAL le); exact B1|].
+    destruct (contains kw_PARTIAL le); exact B1. }
+  rewrite Hbs2, Hf in E2.
+  destruct (build_result b2 te le) as [b3|] eqn:Eb; [|discriminate].
+  destruct (build_result_plain b2 te le b3 B3 B4 Hnd Eb) as (R & _ & _).
+  destruct (add_time_ok _ _ _ _ E2) as (e & A1 & _ & A3 & _).
+  exists (checked_number b3).
+  assert (Hblk : rev (b_result b3) = t0 :: map fst body ++ [te]).
+  { rewrite R, B2. cbn [new_bscan b_result]. cbn [rev]. rewrite rev_app_distr, rev_involutive.
+    cbn. reflexivity. }
+  pose proof (set_flags_same s2 le) as (G1 & _ & G3 & _).
+  split.
+  - rewrite A1. cbn [store_block s_stores]. rewrite Hblk, G1, B5. unfold s1. cbn. rewrite F1. reflexivity.
+  - rewrite A3. cbn [store_block s_coll]. rewrite Hblk.
+    apply (od_get_set_same Z.eqb Z.eqb_eq).
+Qed.
+End BlockProofs.
